@@ -158,6 +158,13 @@ class ModelMixin3:
 
     def list_method(self, recv: Ref, name, args, kwargs, st: State, node):
         le: ListE = st.get(recv.sym)
+        la = st.mon.get('lastapp')
+        if name in ('append', 'extend', 'insert', 'pop', 'remove', 'clear', 'sort', 'reverse', '__setitem__', '__delitem__') and (la and recv.sym in la or name == 'append'):
+            la = dict(la or {})
+            la.pop(recv.sym, None)
+            if name == 'append' and args and not getattr(self, '_internal_append', False):
+                la[recv.sym] = args[0]          # xs[-1] right after xs.append(v) is v
+            st.mon['lastapp'] = la
         if name == 'append':
             v = args[0] if args else NoneV()
             if not getattr(self, '_internal_append', False):
